@@ -270,9 +270,12 @@ def filter_args(func, ignore_lst, args=(), kwargs=dict()):
 
     _, name = get_func_name(func, resolv_alias=False)
     arg_dict = dict()
-    arg_position = -1
+    # Keyword-only parameters always come after the positional ones
+    n_positional = len(arg_names) - len(arg_kwonlyargs)
     for arg_position, arg_name in enumerate(arg_names):
-        if arg_position < len(args):
+        if arg_position < len(args) and (
+            arg_name not in arg_kwonlyargs or arg_varargs is None
+        ):
             # Positional argument or keyword argument given as positional
             if arg_name not in arg_kwonlyargs:
                 arg_dict[arg_name] = args[arg_position]
@@ -320,7 +323,7 @@ def filter_args(func, ignore_lst, args=(), kwargs=dict()):
     if arg_varkw is not None:
         arg_dict["**"] = varkwargs
     if arg_varargs is not None:
-        varargs = args[arg_position + 1 :]
+        varargs = args[n_positional:]
         arg_dict["*"] = varargs
 
     # Now remove the arguments to be ignored
